@@ -302,6 +302,11 @@ pub fn gen_c05(rng: &mut Prng, thorough: bool, out: &mut Out) {
                     let sd = sig_dlog(g1, s, sk, &m);
                     for s2 in 0..3u8 {
                         out.case(g1, &format!("sig_verify c{} p{} q{} x{}", SCH[s2 as usize], hs(&sd), hs(sk), hx(&m)));
+                        // the same point as a signature share (participant 3) against the matching public key share
+                        out.case(g1, &format!("pks_verify {} c{} {} x{}", pt_share_tok(3, &enc_pk(g1, sk)), SCH[s2 as usize], pt_share_tok(3, &enc_sig(g1, &sd)), hx(&m)));
+                        if s2 != 1 {
+                            out.case(g1, &format!("trait_partial_verify c{} {} {} x{}", SCH[s2 as usize], pt_share_tok(3, &enc_pk(g1, sk)), pt_share_tok(3, &enc_sig(g1, &sd)), hx(&m)));
+                        }
                         // proof of knowledge relabelled
                         let x = rng.scalar();
                         let y = rng.scalar();
@@ -469,6 +474,22 @@ pub fn gen_c07(rng: &mut Prng, thorough: bool, out: &mut Out) {
                 v(out, &sum_sig, &sum_sk, &m2);
                 v(out, &sum_sig, &RScalar::ZERO, &m);
                 v(out, &RScalar::ZERO, &sum_sk, &m);
+                if scheme == 2 {
+                    // the trait-level list-of-keys verification (FastAggregateVerify) that no wrapper calls
+                    let tv = |out: &mut Out, sg: &RScalar, ks: &[RScalar], msg: &[u8]| {
+                        let toks: Vec<String> = ks.iter().map(|k| format!("q{}", hs(k))).collect();
+                        out.case(g1, &format!("trait_multi_sig_verify [ {} ] p{} x{}", toks.join(" "), hs(sg), hx(msg)));
+                    };
+                    tv(out, &sum_sig, &sks, &m);
+                    tv(out, &sum_sig, &sks[1..], &m);
+                    let mut more = sks.clone();
+                    more.push(rng.scalar());
+                    tv(out, &sum_sig, &more, &m);
+                    tv(out, &sum_sig, &sks, &m2);
+                    // a sum of possession proofs made over the same bytes is not a multi-signature over them
+                    let pop_sum = sks.iter().fold(RScalar::ZERO, |a, k| a + eta(&m, &dst_pop(g1)) * k);
+                    tv(out, &pop_sum, &sks, &m);
+                }
             }
             // repeated signers: the accumulated key counts every listed key, adjacent or not
             {
